@@ -32,6 +32,24 @@ def expected_log(written, closed_by_writer, closed_by_reader):
 
 
 def mon(w):
+    # nobody tampers with the streams in this property's environment: a connection in use that is dropped because one end raised on
+    # what the other end sent (and the network had not broken it) means honest records were unreadable
+    used = w.__dict__.setdefault("_used_links", set())
+    for s_ in w.sides:
+        c = s_.manager._connection
+        if c is not None:
+            used.add(c.transport.link.idx)
+    for l in w.net.links:
+        if l.idx in used and not l.broken:
+            who = [e.side for e in l.ends if e.transport.lose_calls > 0]
+            if who:
+                w.flag("in-order-exactly-once", "used-connection-dropped-without-fault",
+                       "link %d carried the session and the network did not break it, yet end(s) %r called loseConnection(): honest traffic "
+                       "made the implementation give the connection up (managers %s / %s)" % (l.idx, who, w.mstate(0), w.mstate(1)))
+    for (lidx, sd, broken, tname, msg, in_use) in w.__dict__.get("rx_raised", []):
+        if in_use and not broken:
+            w.flag("in-order-exactly-once", "honest-record-rejected:%s" % tname,
+                   "link %d was in use and intact, but its end %d raised %s(%s) on the bytes the peer sent and dropped the connection" % (lidx, sd, tname, msg))
     for (tname, msg, site) in w.errors:
         w.flag("no-exception", "%s@%s" % (tname, site), "exception %s at %s: %s" % (tname, site, msg))
     for s in w.sides:
@@ -178,6 +196,10 @@ def scenarios(tier):
                 post_init=bp_post_init, extra_events=bp_events, extra_apply=bp_apply,
                 extra_state=lambda w: (w.bp_left, [(getattr(c15.conn_transport(w, i), "told_paused", None)) for i in (0, 1)]),
                 dev_bound=3 if q else 4, max_depth=200))
+    # a write whose record is just too big for one Noise message (encoded 65520 bytes: must be chopped), across a loss
+    BIG = bytes((i * 7) % 251 for i in range(65511))
+    S.append(mk("big-record-lose1-dev", {0: [[("open", "p"), ("write", 0, b"s"), ("write", 0, BIG), ("write", 0, b"t")]], 1: [[("listen", "p")]]},
+                lose=1, chunking="whole", dev_bound=2 if q else 3, max_depth=120))
     if not q:
         S.append(mk("one-way-lose3-dev", T1, lose=3, dev_bound=5, max_depth=300))
     return S
